@@ -47,7 +47,7 @@ pub trait RollingValidBinary<T: IsNone>: Vec1View<T> {
                     sum_ab += va * vb;
                 };
                 let res = if n >= min_periods {
-                    (sum_ab - (sum_a * sum_b) / n.f64()) / (n - 1).f64()
+                    (sum_ab - (sum_a * sum_b) / n.f64()) / (n.f64() - 1.)
                 } else {
                     f64::NAN
                 };
